@@ -151,6 +151,46 @@ func ruleBindErrorDiscipline(p *Program, r *Report) {
 			}
 		}
 		r.Check(!bad, key, "scope used only when the error is nil", fmt.Sprintf("%s uses the scope produced by Bind on a path where its error may be non-nil: bindings of a failed match leak into the result", FnName(fn)), c.Pos())
+		// the context a Bind returns carries dynamic (@{name}) bindings; composite patterns return it "as modified so
+		// far" even when they fail, so like the scope it may flow on only where the error is nil (returning it next to
+		// the error hands the same obligation to the caller)
+		if ctxEx := extractOf(c, 0); ctxEx != nil && strings.HasSuffix(ctxEx.Type().String(), "context.Context") {
+			badCtx := false
+			seenCtx := map[ssa.Value]bool{}
+			var follow func(v ssa.Value, depth int)
+			follow = func(v ssa.Value, depth int) {
+				if seenCtx[v] || depth > 4 || v.Referrers() == nil {
+					return
+				}
+				seenCtx[v] = true
+				for _, ref := range *v.Referrers() {
+					switch u := ref.(type) {
+					case *ssa.DebugRef:
+					case *ssa.Return:
+					case *ssa.Phi:
+						onNil := true
+						for i, e := range u.Edges {
+							if e == v {
+								pred := u.Block().Preds[i]
+								if !(pred == nilSucc || nilSucc.Dominates(pred)) {
+									onNil = false
+								}
+							}
+						}
+						if !onNil {
+							// joined with another branch before the (joined) error is tested: judge the joined value
+							follow(u, depth+1)
+						}
+					default:
+						if !(nilSucc == ref.Block() || nilSucc.Dominates(ref.Block())) {
+							badCtx = true
+						}
+					}
+				}
+			}
+			follow(ctxEx, 0)
+			r.Check(!badCtx, strings.Replace(key, "bind@", "bind-ctx@", 1), "context used only when the error is nil", fmt.Sprintf("%s carries on with the context returned by a Bind that may have failed: dynamic bindings (@{name}) made by the components of a pattern that matched before a later component failed leak into what is evaluated next (the following cond arm)", FnName(fn)), c.Pos())
+		}
 	}
 }
 
